@@ -103,6 +103,13 @@ def queries():
     q.append(("fs-find", "/d/s"))
     for p in ("/f", "/d/a", "/d/s/t/c", "/e/n/m/q", "/e/g", "/d/zz"):
         q.append(("fs-cat", p))
+        q.append(("fs-get", p))
+        q.append(("fs-checksum", p))
+    for p in ("/", "/d", "/e/n", "/d/s/t", "/f"):
+        q.append(("fs-du", p))
+    q.append(("fs-isdir-exists", "/d/s"))
+    q.append(("fs-isdir-exists", "/e/n/k"))
+    q.append(("fs-isdir-exists", "/nope"))
     q.append(("load",))
     return q
 
@@ -164,6 +171,25 @@ def answer(idx, q, twin):
                 return sorted(fs.find(q[1]))
             if kind == "fs-cat":
                 return fs.cat_file(q[1])
+            if kind == "fs-get":
+                import os
+                import tempfile
+
+                d = tempfile.mkdtemp(dir=os.environ.get("MC_SESSION_ROOT"))
+                try:
+                    out = os.path.join(d, "out")
+                    fs.get_file(q[1], out)
+                    return open(out, "rb").read() if os.path.isfile(out) else ("DIR", sorted(os.listdir(out)))
+                finally:
+                    import shutil
+
+                    shutil.rmtree(d, ignore_errors=True)
+            if kind == "fs-checksum":
+                return fs.checksum(q[1])
+            if kind == "fs-du":
+                return fs.du(q[1])
+            if kind == "fs-isdir-exists":
+                return (fs.isdir(q[1]), fs.isfile(q[1]), fs.exists(q[1]))
         if kind == "load":
             idx.load()
             idx.load()
@@ -183,12 +209,18 @@ def expected_extra(q):
     if q[0] == "view-iter":
         f = FILTERS[q[1]]
         return sorted(k for k in TWIN_KEYS if f(k))
-    if q[0] == "fs-cat":
+    if q[0] in ("fs-cat", "fs-get"):
         want = {"/f": "x", "/d/a": "x", "/d/s/t/c": "z", "/e/n/m/q": "x", "/e/g": "y"}
         return CONTENTS[want[q[1]]] if q[1] in want else ("EXC", "FileNotFoundError")
+    if q[0] == "fs-checksum":
+        want = {"/f": "x", "/d/a": "x", "/d/s/t/c": "z", "/e/n/m/q": "x", "/e/g": "y"}
+        return MD5[want[q[1]]] if q[1] in want else ("EXC", "FileNotFoundError")
     if q[0] == "diff":
         return []
     return None
+
+
+_TWIN_ANS = {}
 
 
 def run_seq(seq, backend):
@@ -199,8 +231,13 @@ def run_seq(seq, backend):
         lazy = make_index("lazy", backend, w, odb, "lazy")
         twin_for_diff = make_index("twin", backend, w, odb, "twin0")
         for i, q in enumerate(seq):
-            twin = make_index("twin", backend, w, odb, f"twin{i + 1}")
-            want = answer(twin, q, make_index("twin", "mem", w, odb, "t"))
+            key = (backend, repr(q))
+            twin = None
+            if key not in _TWIN_ANS:
+                # the answer of a *fresh* twin does not depend on the sequence: computed once per worker
+                twin = make_index("twin", backend, w, odb, f"twin{i + 1}")
+                _TWIN_ANS[key] = answer(twin, q, make_index("twin", "mem", w, odb, "t"))
+            want = _TWIN_ANS[key]
             got = answer(lazy, q, twin_for_diff)
             if got != want:
                 viol.append((f"lazy-index-differs-from-twin/{q[0]}",
@@ -209,7 +246,8 @@ def run_seq(seq, backend):
             if extra is not None and got != extra:
                 viol.append((f"answer-differs-from-reference/{q[0]}", f"{q}: got={got!r:.300} want={extra!r:.300}"))
             try:
-                twin.close()
+                if twin is not None:
+                    twin.close()
             except Exception:  # noqa: BLE001
                 pass
         for x in (lazy, twin_for_diff):
